@@ -1091,7 +1091,7 @@ Notes:
     if pm: 
       pm = product_measure(pm)
       self.load(pm.flatten(), pm.pts)
-    if not values: values = []
+    if values is None or not len(values): values = []
     self.__Y = values # storage for values of s.positions
     return
 
